@@ -5,6 +5,8 @@
 import Edn.Proofs.Registry
 import Edn.Model.Reader
 import Edn.Proofs.Dispatch
+import Edn.Proofs.DispatchClj
+import Edn.Proofs.DispatchCljAux6
 
 namespace Edn.Properties.C14
 open Edn.Model Edn.Proofs
@@ -90,5 +92,129 @@ theorem reading_with_registry_is_dispatch (cfg : Cfg) (hc : cfg.clj = false) (op
         es.offset = input.length - s ∧ ee.offset = input.length - e) ∧
       (read cfg { opts with registry := some reg } input).calls = calls :=
   read_with_registry cfg hc opts reg hn input v0 h0
+
+/-- Whole documents, every configuration - the ones with the Clojure flag included, where
+    metadata annotations, metadata targets and namespaced-map keys may contain tagged elements.
+
+    If the input reads to `v0` without a registry, it has a syntax tree `t` (`Edn.Spec.Syn`:
+    scalars, sequences, maps with their namespace prefix, tagged elements, `^annotation target`
+    nodes, all with their source ranges; discarded forms are absent), the same for all options,
+    such that
+    * its registry-free reading `plainS cfg t` is `v0`, with no call;
+    * under any options `o1` - any registry or none, any default mode - `read` returns exactly
+      `dispatchS cfg o1.registry o1.mode t` (`ReadIs`): the same value, cache cells included,
+      and the same call log; or the same error code with the same range and the calls made
+      until then.
+    `dispatchS` is the declarative dispatch: handlers applied bottom-up in source order
+    (annotation before target, key before value), one call per handled tag logged with the
+    range of the operand's result, the handler's result re-ranged to the tagged element and
+    otherwise kept as it is (`#id ^:a [1]` keeps the metadata); an annotation's entries are
+    merged, after the handlers of annotation and target have run, into the metadata the
+    target's result carries (`^:b #id ^:a [1]` has both keys; entries of the result with a key
+    equal to an annotation key are dropped); a target whose result cannot carry metadata is
+    INVALID_SYNTAX over the whole form; the key of a namespaced map is qualified after its
+    handler returned (`#:p{#id :a 1}` is `{:p/a 1}`; a handler result that is not a keyword or
+    symbol stays as it is) and duplicate keys are detected on the qualified keys.
+
+    No hypothesis on the handlers is needed (compare `NiceRegistry` above): the tree's leaves
+    are the scalars as the reader returns them, so both sides hand the handlers the very same
+    operands.  The statement cannot be made on `v0` itself as in
+    `reading_with_registry_is_dispatch`: see `registry_free_tree_insufficient_clj`. -/
+theorem reading_with_registry_is_dispatch_clj (cfg : Cfg) (opts : Opts) (input : Bytes) (v0 : Val)
+    (h0 : (read cfg { opts with registry := none } input).out = .value v0) :
+    ∃ t : Edn.Spec.Syn, Edn.Spec.plainS cfg t = ([], .ok v0) ∧
+      ∀ o1 : Opts, Edn.Spec.ReadIs (read cfg o1 input) input.length
+        (Edn.Spec.dispatchS cfg o1.registry o1.mode t) :=
+  read_is_dispatchS cfg opts input v0 h0
+
+/-- The general form: an input that reads to a value under some options `o0` - with a registry
+    or without - has a syntax tree whose dispatch is what `read` returns under any options.
+    (`^#id {:a 1} [2]` reads only with a registry: without one the annotation is a tagged
+    element, which cannot be an annotation.) -/
+theorem reading_is_determined_by_syntax_tree (cfg : Cfg) (o0 : Opts) (input : Bytes) (v0 : Val)
+    (h0 : (read cfg o0 input).out = .value v0) :
+    ∃ t : Edn.Spec.Syn, ∀ o1 : Opts, Edn.Spec.ReadIs (read cfg o1 input) input.length
+      (Edn.Spec.dispatchS cfg o1.registry o1.mode t) :=
+  read_determined_by_tree cfg o0 input v0 h0
+
+example : (match (read ⟨true, false⟩ {} "^#id {:a 1} [2]".toUTF8.toList).out with
+    | .error c _ _ => c == .invalidSyntax | _ => false) = true ∧
+    (match (read ⟨true, false⟩ { registry := some CljCounterexample.reg } "^#id {:a 1} [2]".toUTF8.toList).out with
+    | .value _ => true | _ => false) = true := by
+  constructor <;> decide +kernel
+
+/-- The same, spelled out for one registry `reg` (the shape of
+    `reading_with_registry_is_dispatch`). -/
+theorem reading_with_registry_is_dispatch_clj' (cfg : Cfg) (opts : Opts) (reg : Bytes → Option Handler)
+    (input : Bytes) (v0 : Val)
+    (h0 : (read cfg { opts with registry := none } input).out = .value v0) :
+    ∃ t : Edn.Spec.Syn, Edn.Spec.plainS cfg t = ([], .ok v0) ∧
+      match Edn.Spec.dispatchS cfg (some reg) opts.mode t with
+      | (calls, .ok v) =>
+        (read cfg { opts with registry := some reg } input).out = .value v ∧
+          (read cfg { opts with registry := some reg } input).calls = calls
+      | (calls, .error (code, s, e)) =>
+        (∃ es ee, (read cfg { opts with registry := some reg } input).out = .error code es ee ∧
+          es.offset = input.length - s ∧ ee.offset = input.length - e) ∧
+        (read cfg { opts with registry := some reg } input).calls = calls := by
+  obtain ⟨t, hp, ht⟩ := read_is_dispatchS cfg opts input v0 h0
+  refine ⟨t, hp, ?_⟩
+  have h := ht { opts with registry := some reg }
+  change Edn.Spec.ReadIs _ _ (Edn.Spec.dispatchS cfg (some reg) opts.mode t) at h
+  rcases hd : Edn.Spec.dispatchS cfg (some reg) opts.mode t with ⟨calls, ⟨code, s, e⟩ | v⟩
+  · rw [hd] at h; exact h
+  · rw [hd] at h; exact h
+
+/-- With the Clojure flag the registry-free tree does not determine what a read with a
+    registry returns: `#:p{#id :a 1}` and `#:q{#id :a 1}` read to the same tree without a
+    registry and to `{:p/a 1}` / `{:q/a 1}` with the identity handler for `id`, so no function
+    of that tree - in particular not `dispatchV` of `reading_with_registry_is_dispatch` - is
+    the registry run.  (`Edn.Proofs.CljCounterexample` has a second pair, for stacked metadata
+    annotations: same registry-free tree, DUPLICATE_KEY against a value.) -/
+theorem registry_free_tree_insufficient_clj :
+    ¬ ∃ F : Val → Edn.Spec.DOne, ∀ (input : Bytes) (v0 : Val),
+      (read ⟨true, false⟩ {} input).out = .value v0 →
+      Edn.Spec.ReadIs (read ⟨true, false⟩ { registry := some CljCounterexample.reg } input) input.length (F v0) :=
+  CljCounterexample.registry_free_tree_insufficient
+
+/-- non-vacuity on `^:b #id ^:a [1]` (Clojure configuration, `id` the identity handler): the
+    input reads without a registry; its syntax tree; the dispatch of the tree makes the one
+    call on the range of `^:a [1]` and returns the vector, ranging over the whole input, with
+    the metadata keys `:b` (outer annotation) and `:a` (kept by the handler's result); and that
+    is the call log of the read -/
+def exampleTree : Edn.Spec.Syn :=
+  .ann 15 12 0 (.leaf (.kw (mkHdr 14 12) none [0x62]))
+    (.tagged 11 0 [0x69, 0x64]
+      (.ann 7 4 0 (.leaf (.kw (mkHdr 6 4) none [0x61])) (.seq 1 3 0 [.leaf (.int (mkHdr 2 1) 1)])))
+
+example : (match (read ⟨true, false⟩ {} "^:b #id ^:a [1]".toUTF8.toList).out with
+    | .value _ => true | _ => false) = true := by decide +kernel
+example : (Edn.Spec.dispatchS ⟨true, false⟩ (some CljCounterexample.reg) 0 exampleTree).1 = [⟨"id", 7, 0⟩] := by
+  decide +kernel
+example : (match (Edn.Spec.dispatchS ⟨true, false⟩ (some CljCounterexample.reg) 0 exampleTree).2 with
+    | .ok (.vec h (some (.map _ _ [.kw _ none kb, .kw _ none ka] _)) [_]) =>
+      h.s == 15 && h.e == 0 && kb == [0x62] && ka == [0x61]
+    | _ => false) = true := by decide +kernel
+example : (read ⟨true, false⟩ { registry := some CljCounterexample.reg } "^:b #id ^:a [1]".toUTF8.toList).calls
+    = [⟨"id", 7, 0⟩] := by decide +kernel
+example : (match (Edn.Spec.plainS ⟨true, false⟩ exampleTree).2 with
+    | .ok (.tagged h (some _) tag (.vec _ (some _) _)) => h.s == 15 && tag == [0x69, 0x64]
+    | _ => false) = true := by decide +kernel
+
+/-- the tree of `#:p{#id :a 1}`: the key is qualified after the identity handler returned it,
+    and the call is logged with the range of `:a` -/
+def exampleNsTree : Edn.Spec.Syn :=
+  .map 13 0 (some [0x70]) [.tagged 9 3 [0x69, 0x64] (.leaf (.kw (mkHdr 5 3) none [0x61]))]
+    [.leaf (.int (mkHdr 2 1) 1)]
+
+example : (match Edn.Spec.dispatchS ⟨true, false⟩ (some CljCounterexample.reg) 0 exampleNsTree with
+    | (calls, .ok (.map h none [.kw _ (some ns) nm] [.int _ 1])) =>
+      calls == [⟨"id", 5, 3⟩] && h.s == 13 && h.e == 0 && ns == [0x70] && nm == [0x61]
+    | _ => false) = true := by decide +kernel
+example : (match (read ⟨true, false⟩ { registry := some CljCounterexample.reg } CljCounterexample.inpP).out with
+    | .value (.map h none [.kw _ (some ns) nm] [.int _ 1]) => h.s == 13 && h.e == 0 && ns == [0x70] && nm == [0x61]
+    | _ => false) = true ∧
+    (read ⟨true, false⟩ { registry := some CljCounterexample.reg } CljCounterexample.inpP).calls = [⟨"id", 5, 3⟩] := by
+  constructor <;> decide +kernel
 
 end Edn.Properties.C14
